@@ -192,13 +192,13 @@ M('c17-handler-uses-raw-send', 'C17', 'R2', APP,
                 code,
             )
             await ws._asgi_send({'type': EventType.WS_CLOSE, 'code': code})
-""")
+""", also=('C18',))
 M('c17-handle-ws-direct-send-after-ctor', 'C17', 'R2', APP,
   """            await on_websocket(req, web_socket, **params)
             await web_socket.close()
 """, """            await on_websocket(req, web_socket, **params)
             await send({'type': EventType.WS_CLOSE, 'code': WSCloseCode.NORMAL})
-""")
+""", also=('C18',))
 M('c17-refusal-sends-accept', 'C17', 'R2', APP,
   "            response = {'type': EventType.WS_CLOSE, 'code': WSCloseCode.SERVER_ERROR}",
   "            response = {'type': EventType.WS_ACCEPT, 'code': WSCloseCode.SERVER_ERROR}")
@@ -208,23 +208,23 @@ M('c17-handle-ws-drop-close', 'C17', 'R3', APP,
   """            await on_websocket(req, web_socket, **params)
             await web_socket.close()
 """, """            await on_websocket(req, web_socket, **params)
-""")
+""", also=('C18',))
 M('c17-handle-ws-close-only-if-unaccepted', 'C17', 'R3', APP,
   """            await on_websocket(req, web_socket, **params)
             await web_socket.close()
 """, """            await on_websocket(req, web_socket, **params)
             if web_socket.unaccepted:
                 await web_socket.close()
-""")
+""", also=('C18',))
 M('c17-handle-ws-except-narrowed', 'C17', 'R3', APP,
   """        except Exception as ex:
             if not await self._handle_exception(req, None, ex, params, ws=web_socket):
 """, """        except HTTPError as ex:
             if not await self._handle_exception(req, None, ex, params, ws=web_socket):
-""")
+""", also=('C18',))
 M('c17-handle-ws-no-ws-to-handler', 'C17', 'R3', APP,
   "            if not await self._handle_exception(req, None, ex, params, ws=web_socket):",
-  "            if not await self._handle_exception(req, None, ex, params):")
+  "            if not await self._handle_exception(req, None, ex, params):", also=('C18',))
 M('c17-responder-outside-try', 'C17', 'R3', APP,
   """            await on_websocket(req, web_socket, **params)
             await web_socket.close()
@@ -239,7 +239,7 @@ M('c17-responder-outside-try', 'C17', 'R3', APP,
 
         await on_websocket(req, web_socket, **params)
         await web_socket.close()
-""")
+""", also=('C18',))
 M('c17-http-error-handler-no-close', 'C17', 'R3', APP,
   """                error,
                 code,
@@ -248,7 +248,7 @@ M('c17-http-error-handler-no-close', 'C17', 'R3', APP,
 """, """                error,
                 code,
             )
-""")
+""", also=('C18',))
 M('c17-python-error-handler-no-cleanup', 'C17', 'R3', APP,
   """        elif ws:
             await self._ws_cleanup_on_error(ws)
@@ -258,14 +258,14 @@ M('c17-python-error-handler-no-cleanup', 'C17', 'R3', APP,
             pass
         else:
             raise NotImplementedError('resp or ws expected')
-""")
+""", also=('C18',))
 M('c17-disconnected-handler-no-cleanup', 'C17', 'R3', APP,
   """            '[FALCON] WebSocket client disconnected with code %i', error.code
         )
         await self._ws_cleanup_on_error(ws)
 """, """            '[FALCON] WebSocket client disconnected with code %i', error.code
         )
-""")
+""", also=('C18',))
 M('c17-cleanup-no-fallback', 'C17', 'R3', APP,
   """            if 'invalid close code' in str(ex).lower():
                 await ws.close(_FALLBACK_WS_ERROR_CODE)
@@ -273,7 +273,7 @@ M('c17-cleanup-no-fallback', 'C17', 'R3', APP,
 """, """            if 'invalid close code' in str(ex).lower():
                 pass
             else:
-""")
+""", also=('C18',))
 M('c17-fallback-code-reserved', 'C17', 'R3', APP,
   "_FALLBACK_WS_ERROR_CODE = 3011", "_FALLBACK_WS_ERROR_CODE = 1005")
 M('c17-close-rejection-message-changed', 'C17', 'R3', WS,
@@ -289,10 +289,10 @@ M('c17-handle-exception-drops-ws-kwarg', 'C17', 'R3', APP,
                     kwargs['ws'] = ws
 """, """                if ws and 'ws' in get_argnames(err_handler):
                     pass
-""")
+""", also=('C18',))
 M('c17-handle-exception-redispatch-no-ws', 'C17', 'R3', APP,
   "                await self._http_error_handler(req, resp, error, params, ws=ws)",
-  "                await self._http_error_handler(req, resp, error, params)")
+  "                await self._http_error_handler(req, resp, error, params)", also=('C18',))
 M('c17-route-not-found-is-400', 'C17', 'R3', 'falcon/responders.py',
   """async def path_not_found_async(req: Request, resp: Response, **kwargs: Any) -> NoReturn:
     \"\"\"Raise 404 HTTPRouteNotFound error.\"\"\"
